@@ -67,8 +67,29 @@ h4v_strdup(const char *s)
     *p = 0;
     return p;
 }
-#define strcmp(a, b) h4v_strcmp(a, b)
-#define strdup(s)    h4v_strdup(s)
+#define strcmp(a, b)  h4v_strcmp(a, b)
+#define strdup(s)     h4v_strdup(s)
+#endif
+#ifdef H4V_CBMC
+/* realloc of the user symbol table: cbmc's model copies the whole array of symbolic size (not
+   tractable); this model allocates a fresh block with ARBITRARY contents, copies the two ghost
+   elements g_k and g_o, and frees the old block -- an over-approximation of realloc that agrees
+   with it on the ghost elements, which are arbitrary: sound for every clause about them. */
+static void *
+h4v_realloc(void *old, size_t n)
+{
+    SYMDEF *o = (SYMDEF *)old;
+    SYMDEF *p = (SYMDEF *)malloc(n);
+    if (p == NULL)
+        return NULL;
+    if (g_k >= 0 && g_k < g_old_n && ((size_t)g_k + 1) * sizeof(SYMDEF) <= n)
+        p[g_k] = o[g_k];
+    if (g_o >= 0 && g_o < g_old_n && ((size_t)g_o + 1) * sizeof(SYMDEF) <= n)
+        p[g_o] = o[g_o];
+    free(old);
+    return p;
+}
+#define realloc(p, n) h4v_realloc(p, n)
 #endif
 
 #include "dfconv.c"
@@ -88,8 +109,8 @@ int VSfdefine(int32 vkey, const char *field, int32 localtype, int32 order)
     __CPROVER_requires(g_vs->nusym >= 0 && (g_vs->nusym == 0) == (g_vs->usym == NULL))
     __CPROVER_requires(g_old_n == g_vs->nusym)
     __CPROVER_requires(g_scan_ret == FAIL || g_scan_ac >= 1)
-    __CPROVER_assigns(g_vs->nusym, g_vs->usym, g_strdup_failed;
-                      g_vs->usym != NULL: __CPROVER_object_whole(g_vs->usym))
+    __CPROVER_assigns(g_vs->nusym, g_vs->usym, g_strdup_failed)
+    __CPROVER_assigns(g_vs->usym != NULL: __CPROVER_object_whole(g_vs->usym))
     __CPROVER_frees(g_vs->usym)
     __CPROVER_ensures(__CPROVER_return_value == SUCCEED || __CPROVER_return_value == FAIL)
     /* C07/C20 limits: order in [1,MAX_ORDER]; unknown type; isize*order <= MAX_FIELD_SIZE */
@@ -124,12 +145,11 @@ H4V_DECL_ND(int);
 H4V_DECL_ND(int16);
 H4V_DECL_ND(uint16);
 H4V_DECL_ND(int32);
-H4V_DECL_ND(char);
 
 #ifndef NUSYM_CAP
 #define NUSYM_CAP 12 /* counterexample mode / bounded runs: table size cap */
 #endif
-#define NMLEN 3 /* counterexample mode / bounded runs: name length cap */
+#define NMLEN 2 /* counterexample mode / bounded runs: name length cap */
 
 /* key, instance and vdata object; the three "bad key" cases are input choices */
 static VDATA *
@@ -155,10 +175,10 @@ mk_env(void)
 static void
 mk_tokens(int32 ac, int cap)
 {
-    H4V_ND_BUF(char, toks, cap *(NMLEN + 1), 4 * (NMLEN + 1));
+    H4V_ND_BUF(uint8, toks, cap *(NMLEN + 1), 4 * (NMLEN + 1));
     for (int i = 0; i < cap; i++) {
         toks[i * (NMLEN + 1) + NMLEN] = 0;
-        g_av[i]                       = &toks[i * (NMLEN + 1)];
+        g_av[i]                       = (char *)&toks[i * (NMLEN + 1)];
     }
     g_av[cap] = NULL;
 }
@@ -192,19 +212,24 @@ h_VSfdefine(void)
 #else
     /* counterexample mode / native replay: a concrete table of named values */
     H4V_ASSUME(nusym <= NUSYM_CAP);
+#ifdef H4V_CBMC /* constant-size block keeps the counterexample search small */
+    SYMDEF *usym = nusym ? malloc(NUSYM_CAP * sizeof(SYMDEF)) : NULL;
+#else
     SYMDEF *usym = nusym ? malloc((size_t)nusym * sizeof(SYMDEF)) : NULL;
+#endif
     H4V_ASSUME(nusym == 0 || usym != NULL);
-    H4V_ND_BUF(int16, us_type, nusym, NUSYM_CAP);
+    H4V_ND_BUF(uint16, us_type, nusym, NUSYM_CAP);
     H4V_ND_BUF(uint16, us_isize, nusym, NUSYM_CAP);
     H4V_ND_BUF(uint16, us_order, nusym, NUSYM_CAP);
-    H4V_ND_BUF(char, us_name, nusym *(NMLEN + 1), NUSYM_CAP *(NMLEN + 1));
+    H4V_ND_BUF(uint8, us_name, nusym *(NMLEN + 1), NUSYM_CAP *(NMLEN + 1));
     for (int i = 0; i < NUSYM_CAP; i++)
         if (i < nusym) {
             us_name[i * (NMLEN + 1) + NMLEN] = 0;
-            usym[i].name                     = &us_name[i * (NMLEN + 1)];
-            usym[i].type                     = us_type[i];
-            usym[i].isize                    = us_isize[i];
-            usym[i].order                    = us_order[i];
+            usym[i].name                     = (char *)&us_name[i * (NMLEN + 1)];
+            H4V_ASSUME(us_type[i] <= 32767);
+            usym[i].type  = (int16)us_type[i];
+            usym[i].isize = us_isize[i];
+            usym[i].order = us_order[i];
         }
     mk_tokens(1, 1);
     char *tok = g_av[0];
